@@ -274,6 +274,12 @@ func (ml *MergeLoop) sideRaw(e ast.Expr) byte {
 // side tells which cursor an expression is indexed by: 'A', 'B', or 0 (none or both).
 func (ml *MergeLoop) side(e ast.Expr) byte {
 	ml.initLocals()
+	// the bare cursor is a position, not an element of its list
+	if id, ok := ast.Unparen(e).(*ast.Ident); ok {
+		if o := ml.F.Info.Uses[id]; o == types.Object(ml.I) || o == types.Object(ml.J) {
+			return 0
+		}
+	}
 	var a, b bool
 	ast.Inspect(e, func(n ast.Node) bool {
 		if id, ok := n.(*ast.Ident); ok {
